@@ -27,35 +27,41 @@ pub fn run(run: &RunInfo) -> Summary {
     let depth = if run.thorough() { 5 } else { 4 };
     let all_ops = ops(&["A", "B", "C"]);
     let nops = all_ops.len();
-    let mut work: Vec<(usize, usize)> = vec![];
+    // (max, first operation, noisy): the noisy pass explores one deviation of the reply shape per
+    // history (no / two intermediate statuses, a print line, an extra status information) at depth - 1
+    let mut work: Vec<(usize, usize, bool)> = vec![];
     for max in 0..=3usize {
         for first in 0..nops {
-            work.push((max, first));
+            work.push((max, first, false));
+            if max >= 1 {
+                work.push((max, first, true));
+            }
         }
     }
     let mut acc = par_for(work.len(), |ix, acc| {
-        let (max, first) = work[ix];
-        if skip_for_replay(run, &format!("c07/max={max}/first={first}/")) {
+        let (max, first, noisy) = work[ix];
+        if skip_for_replay(run, &format!("c07/max={max}/first={first}/noisy={noisy}/")) {
             return;
         }
         let p = HistParams {
             max,
-            depth,
+            depth: if noisy { depth - 1 } else { depth },
             ops: all_ops.clone(),
             dangling: None,
             reservation_menu: vec![Outcome::Ok, Outcome::Abort(0x6c), Outcome::Abort(0xfc), Outcome::NoStatus, Outcome::OkExtraStatus],
             commit_menu: vec![Outcome::Ok, Outcome::Abort(0x6c)],
             cancel_menu: vec![Outcome::Ok, Outcome::Abort(0xb4)],
             eod_menu: vec![Eod::Completion],
+            noise: noisy,
         };
-        let st = dbx::explore(0, 200_000_000, |ctx| {
+        let st = dbx::explore(if noisy { 1 } else { 0 }, 200_000_000, |ctx| {
             let o = history(ctx, &p, first, acc);
             let (problems, trace) = (o.c07, o.trace);
             acc.count("executions", 1);
             if !problems.is_empty() {
                 let choices = ctx.choices();
                 acc.violation(viol(
-                    format!("c07/max={max}/first={first}/choices={choices:?}"),
+                    format!("c07/max={max}/first={first}/noisy={noisy}/choices={choices:?}"),
                     format!("transactions_max_num = {max}\nhistory:\n  {}\nviolations:\n  {}", trace.join("\n  "), problems.join("\n  ")),
                     trace.len() as u64,
                 ));
@@ -85,7 +91,7 @@ pub fn run(run: &RunInfo) -> Summary {
         transitions: acc.get("transitions"),
         traces_validated: execs,
         distinct_nontrivial: acc.set_len("states"),
-        rule: format!("real Feig client against the simulated terminal (paused clock): transactions_max_num 0..=3 x all call histories of depth {depth} over {{begin, commit(0), commit(pre), cancel}} x tokens {{A,B,C}} + read_card, the terminal's outcome of every request that really arrives chosen among {{success with the smallest free receipt number, the same followed by a further status information without receipt number, abort 6C, abort FC, completion without receipt}} (reservation) / {{completion, abort}} (commit, cancel). Every step is compared with the reference model (result class, refused calls cause no traffic, exact request incl. receipt number, clean-up when the map empties, client snapshot == model map). states = distinct (max, client map, terminal ledger)"),
+        rule: format!("real Feig client against the simulated terminal (paused clock): transactions_max_num 0..=3 x all call histories of depth {depth} over {{begin, commit(0), commit(pre), cancel}} x tokens {{A,B,C}} + read_card, the terminal's outcome of every request that really arrives chosen among {{success with the smallest free receipt number, the same followed by a further status information without receipt number, abort 6C, abort FC, completion without receipt}} (reservation) / {{completion, abort}} (commit, cancel). A second pass at depth - 1 additionally explores every single deviation of the terminal's reply shape (no / two intermediate statuses, a print line or an extra status information ahead of the final packet of any exchange). Every step is compared with the reference model (result class, refused calls cause no traffic, exact request incl. receipt number, clean-up when the map empties, client snapshot == model map). states = distinct (max, client map, terminal ledger)"),
         exhaustive: true,
         required_witnesses: vec![
             "three tokens open at once".into(),
